@@ -119,8 +119,10 @@ def run_check(pid, tier, seed):
         if f["status"] == "open":
             seen = known_hits.get(f["key"], 0)
             out.write(f"KNOWN-FINDING: property={pid} {f['what']} (key={f['key']}, observed in {seen} cases this run)\n")
-    for ln in lines:
+    for ln in lines[:12]:
         out.write(ln + "\n")
+    if len(lines) > 12:
+        out.write(f"... and {len(lines) - 12} more distinct violation keys (all listed in the evidence file)\n")
     nt = agg.nt_count + len(agg.nt_keys)
     out.write(f"{pid} {tier}: cases={agg.cases} evaluations={agg.evals} nontrivial={nt} "
               f"outcomes={len(agg.outcomes)} states={agg.state_count + len(agg.states)} "
